@@ -32,6 +32,8 @@ CLAIMED = {
          "7.C17", "Coq proof (acceptance characterisation, cache invariant by induction) + generated-table lemma + extracted-model correspondence"),
  "C18": ("Coq theorems on the post-processing of parse_email (after the email package): partition of header names between the two dicts, nothing invented or dropped, typing per field kind, document order, keyword splitting, Project-URL pairs, the description/body rule, round trip of a well-formed RawMetadata under the stated oracle assumption about the email parser; the header list and payload are obtained from the same email calls the implementation makes",
          "7.C18", "Coq proof (partition / no-loss by induction over header lists) + extracted-model correspondence; email package as oracle"),
+ "C19": ("Coq theorems on the statement-by-statement string-level model of canonicalize_license_expression (padding, split, lower, the two parenthesis guards, eval() of the False/and/or skeleton as an automaton with a depth counter, final identifier/WITH pass, output assembly): it computes the SPDX specification for every input (accept iff the token sequence is in the SPDX grammar, canonical form, idempotent, case/layout insensitive, only the documented exception); the SPDX tables are regenerated from the working tree on every run and the invariants the proofs need are re-proved by complete enumeration of the table; eval() itself is compared with the automaton exhaustively over all guard-passing skeletons up to a length bound on every run",
+         "7.C19", "Coq proof (model = SPDX grammar automaton, idempotence) + generated-table lemmas + extracted-model correspondence incl. exhaustive eval sweep"),
 }
 NA_REASON = "check not built yet in this revision (planned, see DESIGN.md section 7); nothing is claimed"
 checks, na = [], []
